@@ -27,6 +27,10 @@ func verifC01TypeName(ins instruction) string {
 	if t == nil {
 		return "nil"
 	}
+	// the initial suspension point of a generator yields no value (func.go:901): same type as `yield`, told apart by identity
+	if ym, ok := ins.(*yieldMarker); ok && ym == yieldEmpty {
+		return "yieldEmpty"
+	}
 	for t.Kind() == reflect.Ptr {
 		t = t.Elem()
 	}
@@ -219,6 +223,10 @@ type VerifC01Obs struct {
 	// (frame switch, handler transfer, panic).
 	FrameSwitch map[string]int
 	Handler     map[string]int
+	// EvalUnits: code units of programs compiled by eval at run time (direct and indirect), captured by compiling the
+	// same text in the same context just before the traced call instruction runs. Nil = do not capture.
+	EvalUnits *[]VerifC01Unit
+	evalSeen  int
 }
 
 type verifC01Traced struct {
@@ -227,7 +235,69 @@ type verifC01Traced struct {
 	obs   *VerifC01Obs
 }
 
+// verifC01CaptureEval mirrors the compile step of Runtime.eval (runtime.go:947) for the eval call that the traced
+// instruction is about to perform, and records the dump of the resulting program. Compilation has no side effects
+// on the runtime; the real call compiles the text again.
+func (t *verifC01Traced) captureEval(vm *vm) {
+	sink := t.obs.EvalUnits
+	if sink == nil || t.obs.evalSeen >= 64 {
+		return
+	}
+	var n int
+	direct, strict := true, false
+	switch ins := t.inner.(type) {
+	case callEval:
+		n = int(ins)
+	case callEvalStrict:
+		n, strict = int(ins), true
+	case call:
+		n, direct = int(ins), false
+	default:
+		return
+	}
+	if n < 1 || vm.sp-n-1 < 0 {
+		return
+	}
+	callee, ok := vm.stack[vm.sp-n-1].(*Object)
+	if !ok || callee != vm.r.global.Eval {
+		return
+	}
+	src, ok := vm.stack[vm.sp-n].(String)
+	if !ok {
+		return
+	}
+	inGlobal := true
+	if direct {
+		for s := vm.stash; s != nil; s = s.outer {
+			if s.isVariable() {
+				inGlobal = false
+				break
+			}
+		}
+	}
+	t.obs.evalSeen++
+	func() {
+		defer func() { _ = recover() }() // a panic here will happen again in the real call and be reported there
+		savedStash, savedPriv := vm.stash, vm.privEnv
+		if !direct {
+			vm.stash, vm.privEnv = &vm.r.global.stash, nil
+		}
+		p, err := vm.r.compile("<eval>", escapeInvalidUtf16(src), strict, inGlobal, vm)
+		vm.stash, vm.privEnv = savedStash, savedPriv
+		if err != nil || p == nil {
+			return
+		}
+		for _, u := range VerifC01DumpProgram(p) {
+			if u.Kind == "program" {
+				u.Kind = "eval"
+			}
+			*sink = append(*sink, u)
+		}
+	}()
+}
+
 func (t *verifC01Traced) exec(vm *vm) {
+	t.captureEval(vm)
 	sp, pc, prg, depth := vm.sp, vm.pc, vm.prg, len(vm.callStack)
 	// snapshot handler entries of the try frames that belong to the current call frame
 	type h struct{ pc, sp int }
